@@ -225,7 +225,9 @@ def check(ctx, rep: Report):
     # ---- DIS / IDEM
     rep.rules["C19.DIS"] = "dissolution target and value"
     g = ctx.p.find_function("MethodDescriptor.__get__")
-    calls = [n for n in walk_own(g.node) if isinstance(n, ast.Call) and ast.unparse(n.func) == "setattr"]
+    from .base import with_callees
+    calls = [n for gg in with_callees(ctx.p, g, 1) if gg is g or gg.cls is g.cls       # the write may sit in a private helper of the class
+             for n in walk_own(gg.node) if isinstance(n, ast.Call) and ast.unparse(n.func) == "setattr"]
     bad = []
     if len(calls) != 1:
         bad.append(f"{len(calls)} class writes (expected one)")
